@@ -334,7 +334,8 @@ def rand_cfg(rng, force=None):
     sub = (not plain) and rng.random() < 0.08
     secs = rng.random() < 0.15
     vals = [1, 2, 3, 4]
-    cals = [[rand_entry(rng, F) for _ in range(rng.randint(1, 3))] for _ in range(rng.randint(0, 2))]
+    # (Calendar objects with an EMPTY date list included: a reference to one is never in force)
+    cals = [[rand_entry(rng, F) for _ in range(rng.choice([0, 0, 1, 2, 3]))] for _ in range(rng.randint(0, 2))]
     nexc = rng.randint(0, 4)
     prios = rng.sample(range(1, 17), nexc)
     if ties and nexc >= 2:
@@ -342,7 +343,7 @@ def rand_cfg(rng, force=None):
         prios = [rng.choice(pool) for _ in range(nexc)]
     exc = []
     for i in range(nexc):
-        p = per("cal", id=rng.randint(1, len(cals))) if cals and rng.random() < 0.3 else rand_entry(rng, F)
+        p = per("cal", id=rng.randint(1, len(cals))) if cals and rng.random() < 0.4 else rand_entry(rng, F)
         exc.append({"period": p, "prio": prios[i], "tvs": rand_tvs(rng, rng.randint(0, 4), secs, sub, vals)})
     weekly = [rand_tvs(rng, rng.randint(0, 4), secs, sub, vals) for _ in range(7)]
     r = rng.random()
